@@ -1,5 +1,5 @@
 """C05 - every hit is accounted for exactly once at every stage (structural part)."""
-from sa.rules import accounting, typestate, indexing
+from sa.rules import accounting, typestate, indexing, separation
 
 LEVEL = 'other'
 
@@ -13,5 +13,6 @@ def check(ctx):
     accounting.hits_immutable(ctx, 'C05-R6')
     indexing.data_index_state(ctx, 'C05-R6')
     accounting.ncomp_rewritten(ctx, 'C05-R7')
+    separation.remerge_bookkeeping(ctx, 'C05-R8')
     ctx.undecided += ['that scikit-learn returns one label per row; that every mixture component is populated '
                       '(run-time assert in layer.ncomp_from_gmm); that k sub-components give k layers numerically']
